@@ -55,6 +55,7 @@ CHECKS = {
             {"pkg": "core", "run": "^TestC02Completion$", "quick": 1500, "thorough": 60000, "shards_thorough": 8},
             {"pkg": "core", "run": "^TestC02SendWindow$", "quick": 600, "thorough": 30000, "shards_thorough": 4},
             {"pkg": "core", "run": "^TestC02NestedCall$", "quick": 300, "thorough": 10000, "shards_thorough": 4},
+            {"pkg": "core", "run": "^TestC02WriteQueue$", "quick": 200, "thorough": 8000, "shards_thorough": 4},
             {"pkg": "core", "run": "^TestC02CutSweep$", "quick": 1, "thorough": 1, "rapid": False},
         ],
     },
